@@ -12,7 +12,7 @@ from ..engine import Analysis
 from ..kinds import NOVALUE, calls_to, classify_handler, normal_only, scenario
 from ..kinds import both as both_
 from ..loader import FunctionInfo, dotted, parent, stmt_text, within
-from .c04 import CONTAINER_VALIDATORS, container_validators, conversion, factory_closures, multi_validator_names
+from .c04 import CONTAINER_VALIDATORS, is_kwarg_lookup, container_validators, conversion, factory_closures, multi_validator_names
 
 ASSUMPTIONS = [
     "NARROW CLAIM: 'construction succeeds exactly when every value conforms to its annotation' is an equivalence over an infinite value space and is NOT decided",
@@ -52,12 +52,17 @@ def check(an: Analysis) -> None:
         v = unwrap(Deps(prog, init).inline(c.args[2])) if len(c.args) == 3 else None
         ok = len(names) == 2 and is_name(c.args[0], "self") and is_name(c.args[1], names[0]) and isinstance(v, ast.Call) and isinstance(v.func, ast.Attribute) and v.func.attr == "validated" and is_name(v.func.value, names[1])
         if ok:
-            a = unwrap(v.args[0]) if len(v.args) == 1 else None
-            ok = isinstance(a, ast.Call) and isinstance(a.func, ast.Attribute) and a.func.attr == "get" and len(a.args) == 2 and is_name(a.args[0], names[0])
+            kwn_ = init.node.args.kwarg.arg if init.node.args.kwarg else ""
+            raw = unwrap(c.args[2])
+            inner = unwrap(raw.args[0]) if isinstance(raw, ast.Call) and len(raw.args) == 1 else (unwrap(v.args[0]) if len(v.args) == 1 else None)
+            ok = is_kwarg_lookup(init, Deps(prog, init), inner, kwn_, names[0]) or is_kwarg_lookup(init, Deps(prog, init), unwrap(v.args[0]) if len(v.args) == 1 else None, kwn_, names[0])
         if not ok:
             ob.fail(init, c, "an attribute is stored without going through attribute.validated(<the value supplied under its own name>)")
-    if any(isinstance(n, (ast.Try, ast.With)) for n in init.own_nodes()):
-        ob.fail(init, next(n for n in init.own_nodes() if isinstance(n, (ast.Try, ast.With))), "State.__init__ can swallow a validation error: an instance with unvalidated / missing attributes would be yielded")
+    for n in [n for n in init.own_nodes() if isinstance(n, (ast.Try, ast.With))]:
+        # a try that only guards the kwargs item lookup cannot swallow a validation error
+        lookup_only = isinstance(n, ast.Try) and len(n.body) == 1 and isinstance(n.body[0], (ast.Assign, ast.AnnAssign)) and not any(isinstance(x, ast.Call) for x in ast.walk(n.body[0])) and not n.finalbody
+        if not lookup_only:
+            ob.fail(init, n, "State.__init__ can swallow a validation error: an instance with unvalidated / missing attributes would be yielded")
     vf = prog.fn("state.structure.StateAttribute.validated")
     vp = vf.param_names()[1]
     gv = an.cfg(vf)
